@@ -17,6 +17,10 @@
 #define VF_CFG( NAME, TOP, ACT, CTL, A, M, T, actions, required, lazy, observed, have_act ) \
    e.cfgs.push_back( vf::cfg_entry{ NAME, &vf::runner< TOP, ACT, CTL, tao::pegtl::apply_mode::A, tao::pegtl::rewind_mode::M, tao::pegtl::tracking_mode::T, VF_EOL >, actions, required, lazy, observed, have_act, VF_EOL_ID } )
 
+// non-default initial counters (byte 7 line 5 column 4)
+#define VF_CFG_CNT( NAME, TOP, ACT, CTL, A, M, T, actions, required, lazy ) \
+   e.cfgs.push_back( vf::cfg_entry{ NAME, &vf::runner_counters< TOP, ACT, CTL, tao::pegtl::apply_mode::A, tao::pegtl::rewind_mode::M, tao::pegtl::tracking_mode::T, VF_EOL, 7, 5, 4 >, actions, required, lazy, true, true, VF_EOL_ID, 7, 5, 4 } )
+
 // c0: actions on, required, observer with unwind, eager   (everything is checked here)
 // c1: actions on, optional, observer without unwind, lazy
 // c2: no action family, apply_mode nothing, required, plain control, eager (verdict only; no wrapper)
@@ -32,8 +36,6 @@
    VF_CFG( "none-nothing-req-plain-eager", TOP, tao::pegtl::nothing, vf::plain_control, nothing, required, eager, false, true, false, false, false )
 #elif VF_CFGSET == 5
 // C06: eager / lazy, default and non-default initial counters (byte 7 line 5 column 4)
-#define VF_CFG_CNT( NAME, TOP, ACT, CTL, A, M, T, actions, required, lazy ) \
-   e.cfgs.push_back( vf::cfg_entry{ NAME, &vf::runner_counters< TOP, ACT, CTL, tao::pegtl::apply_mode::A, tao::pegtl::rewind_mode::M, tao::pegtl::tracking_mode::T, VF_EOL, 7, 5, 4 >, actions, required, lazy, true, true, VF_EOL_ID, 7, 5, 4 } )
 #define VF_CFGS( e, TOP, ACT )                                                                                                 \
    VF_CFG( "act-req-obs-eager", TOP, ACT, vf::obs_control_unw, action, required, eager, true, true, false, true, true );        \
    VF_CFG( "act-opt-obsnu-lazy", TOP, ACT, vf::obs_control_nounwind, action, optional, lazy, true, false, true, true, true );   \
@@ -73,6 +75,16 @@
    e.cfgs.push_back( vf::cfg_entry{ "statectl-over-mustif-act-req-eager", &vf::runner_statectl< TOP, ACT, tao::pegtl::apply_mode::action, tao::pegtl::rewind_mode::required, tao::pegtl::tracking_mode::eager, VF_EOL, VF_MI_LIGHT >, true, true, false, false, true, VF_EOL_ID, 0, 1, 1, -1, false, true } ); \
    e.cfgs.push_back( vf::cfg_entry{ "statectl-over-mustif-nothing-opt-lazy", &vf::runner_statectl< TOP, ACT, tao::pegtl::apply_mode::nothing, tao::pegtl::rewind_mode::optional, tao::pegtl::tracking_mode::lazy, VF_EOL, VF_MI_LIGHT >, false, false, true, false, true, VF_EOL_ID, 0, 1, 1, -1, false, true } ); \
    e.cfgs.push_back( vf::cfg_entry{ "coverage-over-mustif-eager", &vf::runner_coverage< TOP, ACT, tao::pegtl::tracking_mode::eager, VF_EOL, VF_MI_LIGHT >, true, false, false, false, true, VF_EOL_ID, 0, 1, 1, -1, false, true } )
+#elif VF_CFGSET == 11
+// C05: the five configurations of the default set plus lazy and eager inputs that start at byte 7 line 5 column 4
+#define VF_CFGS( e, TOP, ACT )                                                                                                 \
+   VF_CFG( "act-req-obs-eager", TOP, ACT, vf::obs_control_unw, action, required, eager, true, true, false, true, true );        \
+   VF_CFG( "act-opt-obsnu-lazy", TOP, ACT, vf::obs_control_nounwind, action, optional, lazy, true, false, true, true, true );   \
+   VF_CFG( "none-nothing-req-plain-eager", TOP, tao::pegtl::nothing, vf::plain_control, nothing, required, eager, false, true, false, false, false ); \
+   VF_CFG( "act-nothing-opt-obs-eager", TOP, ACT, vf::obs_control_unw, nothing, optional, eager, false, false, false, true, true ); \
+   VF_CFG( "none-action-opt-obs-lazy", TOP, tao::pegtl::nothing, vf::obs_control_unw, action, optional, lazy, true, false, true, true, false ); \
+   VF_CFG_CNT( "act-opt-obs-lazy-counters", TOP, ACT, vf::obs_control_unw, action, optional, lazy, true, false, true );           \
+   VF_CFG_CNT( "act-req-obs-eager-counters", TOP, ACT, vf::obs_control_unw, action, required, eager, true, true, false )
 #elif VF_CFGSET == 4
 // C08: observer through state_control, and the coverage facility
 #define VF_CFGS( e, TOP, ACT )                                                                                                 \
